@@ -97,6 +97,8 @@ func idxOf(sorted []uint64, id uint64) int {
 type simRing struct {
 	net     *ringsim.Net
 	members map[uint64]*ringsim.Member
+	// retired: earlier incarnations of ids that were restarted (rejoin with the old identity)
+	retired []*ringsim.Member
 }
 
 // live returns the members that are part of the ring by observed outcome:
